@@ -1,12 +1,1403 @@
-//! C02 - (to be written)
+//! C02 - noise-free ciphertext operations commute exactly with the decryption phase (model checking: E1 + E2).
+//!
+//! E1 (families `glwe_ops/*`, `ggsw_rotate/*`): every single operation over the full product of shapes, ranks,
+//! radices, parameters, value classes and garbage fills. Oracle, evaluated on every element:
+//!   (a) column level - every column of the result, read as an exact rational modulo 1, equals the operation
+//!       applied to the same column of the operands (a column an operand does not have is zero), within one unit of
+//!       the result's last limb per truncated operand, exactly when nothing is truncated;
+//!   (b) phase level - phase(result) == op(phase(a), phase(b)) modulo 1 under a fixed clear secret (no key is
+//!       generated; the secret only evaluates the phase), same tolerance times (1 + sum |s_i|_1);
+//!   (c) for the limb-wise operations without truncation: limb-exact equality with the index-level ring model.
+//! E2 (family `programs/*`): explicit-state search (stateright) over straight-line programs on a register file of
+//! real GLWE objects; every transition performs the real call and is checked against the reference phase carried
+//! in the state.
 
-use pvc_engine::Run;
-use serde_json::Value;
+use crate::util::*;
+use poulpy_core::layouts::{Base2K, Degree, Dnum, Dsize, GGSW, GLWE, LWEInfos, Rank, TorusPrecision};
+use poulpy_core::{
+    GGSWRotate, GLWEAdd, GLWECopy, GLWEMulXpMinusOne, GLWENegate, GLWENormalize, GLWERotate, GLWEShift, GLWESub, ScratchTakeCore,
+};
+use poulpy_hal::api::{VecZnxMulXpMinusOneAssignTmpBytes, VecZnxNormalizeTmpBytes};
+use poulpy_hal::layouts::{Module, Scratch, ZnxInfos, ZnxView, ZnxViewMut};
+use pvc_common::phase::{Dist, clear_secret, glwe_phase};
+use pvc_common::{Bk, CoreAll, HalAll, for_backends};
+use pvc_engine::rng::{Rng, garbage};
+use pvc_engine::{Rec, Run, Tier, fnv, guarded};
+use pvc_model::IBig;
+use pvc_model::ring;
+use serde::{Deserialize, Serialize};
+use serde_json::{Value, json};
+use stateright::{Checker, Model, Property};
+use std::hash::{Hash, Hasher};
+use std::sync::Mutex;
+use std::sync::atomic::{AtomicU64, Ordering};
 
-pub fn run(_run: &mut Run) {
-    panic!("C02: not implemented yet");
+#[derive(Clone, Copy, Debug, PartialEq, Eq, Hash, Serialize, Deserialize)]
+pub enum Op {
+    AddInto,
+    AddAssign,
+    Sub,
+    SubAssign,
+    SubNegateAssign,
+    Negate,
+    NegateAssign,
+    Copy,
+    Rotate,
+    RotateAssign,
+    MulXpMinusOne,
+    MulXpMinusOneAssign,
+    Rsh,
+    LshAssign,
+    Lsh,
+    LshAdd,
+    LshSub,
+    Normalize,
+    NormalizeAssign,
 }
 
-pub fn replay(_run: &mut Run, _d: &Value) {
-    panic!("C02: not implemented yet");
+pub const ALL_OPS: [Op; 19] = [
+    Op::AddInto,
+    Op::AddAssign,
+    Op::Sub,
+    Op::SubAssign,
+    Op::SubNegateAssign,
+    Op::Negate,
+    Op::NegateAssign,
+    Op::Copy,
+    Op::Rotate,
+    Op::RotateAssign,
+    Op::MulXpMinusOne,
+    Op::MulXpMinusOneAssign,
+    Op::Rsh,
+    Op::LshAssign,
+    Op::Lsh,
+    Op::LshAdd,
+    Op::LshSub,
+    Op::Normalize,
+    Op::NormalizeAssign,
+];
+
+impl Op {
+    pub fn name(self) -> &'static str {
+        match self {
+            Op::AddInto => "glwe_add_into",
+            Op::AddAssign => "glwe_add_assign",
+            Op::Sub => "glwe_sub",
+            Op::SubAssign => "glwe_sub_assign",
+            Op::SubNegateAssign => "glwe_sub_negate_assign",
+            Op::Negate => "glwe_negate",
+            Op::NegateAssign => "glwe_negate_assign",
+            Op::Copy => "glwe_copy",
+            Op::Rotate => "glwe_rotate",
+            Op::RotateAssign => "glwe_rotate_assign",
+            Op::MulXpMinusOne => "glwe_mul_xp_minus_one",
+            Op::MulXpMinusOneAssign => "glwe_mul_xp_minus_one_assign",
+            Op::Rsh => "glwe_rsh",
+            Op::LshAssign => "glwe_lsh_assign",
+            Op::Lsh => "glwe_lsh",
+            Op::LshAdd => "glwe_lsh_add",
+            Op::LshSub => "glwe_lsh_sub",
+            Op::Normalize => "glwe_normalize",
+            Op::NormalizeAssign => "glwe_normalize_assign",
+        }
+    }
+    pub fn uses_a(self) -> bool {
+        !matches!(
+            self,
+            Op::NegateAssign | Op::RotateAssign | Op::MulXpMinusOneAssign | Op::Rsh | Op::LshAssign | Op::NormalizeAssign
+        )
+    }
+    pub fn uses_b(self) -> bool {
+        matches!(self, Op::AddInto | Op::Sub)
+    }
+    /// the prior content of the result is an input
+    pub fn reads_res(self) -> bool {
+        matches!(
+            self,
+            Op::AddAssign
+                | Op::SubAssign
+                | Op::SubNegateAssign
+                | Op::NegateAssign
+                | Op::RotateAssign
+                | Op::MulXpMinusOneAssign
+                | Op::Rsh
+                | Op::LshAssign
+                | Op::LshAdd
+                | Op::LshSub
+                | Op::NormalizeAssign
+        )
+    }
+    pub fn is_rotation(self) -> bool {
+        matches!(self, Op::Rotate | Op::RotateAssign | Op::MulXpMinusOne | Op::MulXpMinusOneAssign)
+    }
+    pub fn is_shift(self) -> bool {
+        matches!(self, Op::Rsh | Op::LshAssign | Op::Lsh | Op::LshAdd | Op::LshSub)
+    }
+    /// the operation re-normalises (so un-normalised operand digits are admissible)
+    pub fn normalises(self) -> bool {
+        self.is_shift() || matches!(self, Op::Normalize | Op::NormalizeAssign)
+    }
+    /// limb-wise operations: without truncation the result limbs are determined exactly by the ring model
+    pub fn limbwise(self) -> bool {
+        !self.normalises()
+    }
+    /// rank relation asserted by the API: is (res rank, a rank, b rank) admitted?
+    pub fn admits(self, rr: usize, ra: usize, rb: usize) -> bool {
+        match self {
+            Op::AddInto | Op::Sub => {
+                if ra == 0 {
+                    rr == rb
+                } else if rb == 0 {
+                    rr == ra
+                } else {
+                    rr == ra && rr == rb
+                }
+            }
+            Op::AddAssign | Op::Lsh | Op::LshAdd | Op::LshSub => rr >= ra,
+            Op::SubAssign | Op::SubNegateAssign | Op::Copy | Op::Rotate => rr == ra || ra == 0,
+            Op::Negate | Op::MulXpMinusOne | Op::Normalize => rr == ra,
+            _ => true,
+        }
+    }
+}
+
+fn ceil_shr(x: u128, k: usize) -> u128 {
+    if k >= 128 {
+        return (x > 0) as u128;
+    }
+    let q = x >> k;
+    if (q << k) != x { q + 1 } else { q }
+}
+
+fn sat_shl(x: u128, k: usize) -> u128 {
+    if x == 0 {
+        0
+    } else if k >= 100 || x.leading_zeros() as usize <= k + 20 {
+        u128::MAX >> 20
+    } else {
+        x << k
+    }
+}
+
+const T_INF: u128 = u128::MAX >> 20;
+
+fn sat_add(a: u128, b: u128) -> u128 {
+    a.saturating_add(b).min(T_INF)
+}
+
+/// error of operand `a` (t_a units of 2^-(a_bits)) after multiplication by 2^k, in units of 2^-(r_bits), rounded up
+fn conv_units(t_a: u128, a_bits: usize, r_bits: usize, k: usize) -> u128 {
+    let e = r_bits as i64 + k as i64 - a_bits as i64;
+    if e >= 0 { sat_shl(t_a, e as usize) } else { ceil_shr(t_a, (-e) as usize) }
+}
+
+/// Tolerance (in units of the result's last limb, per column and coefficient) the property grants:
+/// one unit per truncated operand, plus the propagated tolerance of the operands (E2).
+#[allow(clippy::too_many_arguments)]
+pub fn tolerance_units(op: Op, p: i64, r_bits: usize, a_bits: usize, b_bits: usize, t_r: u128, t_a: u128, t_b: u128) -> u128 {
+    let tr_a = (a_bits > r_bits) as u128;
+    let tr_b = (b_bits > r_bits) as u128;
+    let ca = sat_add(conv_units(t_a, a_bits, r_bits, 0), tr_a);
+    let cb = sat_add(conv_units(t_b, b_bits, r_bits, 0), tr_b);
+    let k = p.unsigned_abs() as usize;
+    match op {
+        Op::AddInto | Op::Sub => sat_add(ca, cb),
+        Op::AddAssign | Op::SubAssign | Op::SubNegateAssign => sat_add(t_r, ca),
+        Op::Negate | Op::Copy | Op::Rotate | Op::Normalize => ca,
+        Op::NegateAssign | Op::RotateAssign | Op::NormalizeAssign => t_r,
+        Op::MulXpMinusOne => sat_add(ca, ca),
+        Op::MulXpMinusOneAssign => sat_add(t_r, t_r),
+        Op::Rsh => {
+            if k == 0 {
+                t_r
+            } else {
+                sat_add(ceil_shr(t_r, k), 1)
+            }
+        }
+        Op::LshAssign => sat_shl(t_r, k),
+        Op::Lsh | Op::LshAdd | Op::LshSub => {
+            let e = sat_add(conv_units(t_a, a_bits, r_bits, k), (a_bits as i64 - k as i64 > r_bits as i64) as u128);
+            if op == Op::Lsh { e } else { sat_add(t_r, e) }
+        }
+    }
+}
+
+/// The operation on exact polynomials (columns or phases), all scaled by 2^l. `r0` = prior result.
+pub fn apply(op: Op, p: i64, r0: &Poly, a: &Poly, b: &Poly) -> Poly {
+    let k = p.unsigned_abs() as usize;
+    match op {
+        Op::AddInto => padd(a, b),
+        Op::Sub => psub(a, b),
+        Op::AddAssign => padd(r0, a),
+        Op::SubAssign => psub(r0, a),
+        Op::SubNegateAssign => psub(a, r0),
+        Op::Negate => pneg(a),
+        Op::NegateAssign => pneg(r0),
+        Op::Copy | Op::Normalize => a.clone(),
+        Op::NormalizeAssign => r0.clone(),
+        Op::Rotate => prot(a, p),
+        Op::RotateAssign => prot(r0, p),
+        Op::MulXpMinusOne => psub(&prot(a, p), a),
+        Op::MulXpMinusOneAssign => psub(&prot(r0, p), r0),
+        // the caller guarantees that the low k bits of the scaled operand are zero (exact division)
+        Op::Rsh => r0.iter().map(|x| x >> k).collect(),
+        Op::LshAssign => pshl(r0, k),
+        Op::Lsh => pshl(a, k),
+        Op::LshAdd => padd(r0, &pshl(a, k)),
+        Op::LshSub => psub(r0, &pshl(a, k)),
+    }
+}
+
+/// issues the real call
+#[allow(clippy::too_many_arguments)]
+pub fn call<B: Bk>(m: &Module<B>, op: Op, p: i64, res: &mut GLWE<Vec<u8>>, a: &GLWE<Vec<u8>>, b: &GLWE<Vec<u8>>, sg: usize)
+where
+    Module<B>: HalAll<B> + CoreAll<B>,
+    Scratch<B>: ScratchTakeCore<B>,
+{
+    let bytes = m
+        .glwe_rotate_tmp_bytes()
+        .max(m.glwe_shift_tmp_bytes())
+        .max(m.glwe_normalize_tmp_bytes())
+        .max(m.vec_znx_normalize_tmp_bytes())
+        .max(m.vec_znx_mul_xp_minus_one_assign_tmp_bytes())
+        + 256;
+    let k = p.unsigned_abs() as usize;
+    with_scratch::<B, _>(bytes, sg, |s| match op {
+        Op::AddInto => m.glwe_add_into(res, a, b),
+        Op::AddAssign => m.glwe_add_assign(res, a),
+        Op::Sub => m.glwe_sub(res, a, b),
+        Op::SubAssign => m.glwe_sub_assign(res, a),
+        Op::SubNegateAssign => m.glwe_sub_negate_assign(res, a),
+        Op::Negate => m.glwe_negate(res, a),
+        Op::NegateAssign => m.glwe_negate_assign(res),
+        Op::Copy => m.glwe_copy(res, a),
+        Op::Rotate => m.glwe_rotate(p, res, a),
+        Op::RotateAssign => m.glwe_rotate_assign(p, res, s),
+        Op::MulXpMinusOne => m.glwe_mul_xp_minus_one(p, res, a),
+        Op::MulXpMinusOneAssign => m.glwe_mul_xp_minus_one_assign(p, res, s),
+        Op::Rsh => m.glwe_rsh(k, res, s),
+        Op::LshAssign => m.glwe_lsh_assign(res, k, s),
+        Op::Lsh => m.glwe_lsh(res, a, k, s),
+        Op::LshAdd => m.glwe_lsh_add(res, a, k, s),
+        Op::LshSub => m.glwe_lsh_sub(res, a, k, s),
+        Op::Normalize => m.glwe_normalize(res, a, s),
+        Op::NormalizeAssign => m.glwe_normalize_assign(res, s),
+    })
+}
+
+/// fixed clear "secret" used only to evaluate phases (3 columns, ternary)
+pub fn eval_secret(n: usize) -> Vec<Vec<i64>> {
+    let mut seed = [0u8; 32];
+    seed[0] = 0xC2;
+    seed[1] = n as u8;
+    clear_secret(n, 3, Dist::TernaryProb, seed)
+}
+
+pub struct Judge<'a> {
+    pub sk: &'a [Vec<i64>],
+}
+
+/// Outcome of judging one executed operation.
+pub struct Verdict {
+    pub kind: &'static str,
+    pub level: &'static str,
+    pub col: usize,
+    pub index: usize,
+    pub err_units: f64,
+    pub tol_units: f64,
+    pub why: String,
+}
+
+/// columns of `g` scaled to 2^l; a column the operand does not have is zero
+fn cols_scaled(g: &GLWE<Vec<u8>>, ncols: usize, l: usize) -> Vec<Poly> {
+    let b = g.base2k().0 as usize;
+    let bits = g.size() * b;
+    let n = g.n().0 as usize;
+    (0..ncols)
+        .map(|i| if i < g.data().cols() { pshl(&col_vals(g.data(), i, b), l - bits) } else { pzero(n) })
+        .collect()
+}
+
+fn phase_scaled(g: &GLWE<Vec<u8>>, sk: &[Vec<i64>], l: usize) -> Poly {
+    let b = g.base2k().0 as usize;
+    let bits = g.size() * b;
+    let rank = g.data().cols() - 1;
+    pshl(&glwe_phase(g.data(), b, &sk[..rank]), l - bits)
+}
+
+/// index-level limb model of the limb-wise operations (zero extension of missing limbs / columns)
+fn limb_model(op: Op, p: i64, n: usize, j: usize, i: usize, r0: &GLWE<Vec<u8>>, a: &GLWE<Vec<u8>>, b: &GLWE<Vec<u8>>) -> Vec<i64> {
+    let get = |g: &GLWE<Vec<u8>>| -> Vec<i64> {
+        if i < g.data().cols() && j < g.size() { g.data().at(i, j).to_vec() } else { vec![0i64; n] }
+    };
+    match op {
+        Op::AddInto => ring::add(&get(a), &get(b)),
+        Op::Sub => ring::sub(&get(a), &get(b)),
+        Op::AddAssign => ring::add(&get(r0), &get(a)),
+        Op::SubAssign => ring::sub(&get(r0), &get(a)),
+        Op::SubNegateAssign => ring::sub(&get(a), &get(r0)),
+        Op::Negate => ring::neg(&get(a)),
+        Op::NegateAssign => ring::neg(&get(r0)),
+        Op::Copy => get(a),
+        Op::Rotate => ring::mul_xk(&get(a), p),
+        Op::RotateAssign => ring::mul_xk(&get(r0), p),
+        Op::MulXpMinusOne => ring::mul_xk_minus_one(&get(a), p),
+        Op::MulXpMinusOneAssign => ring::mul_xk_minus_one(&get(r0), p),
+        _ => unreachable!(),
+    }
+}
+
+/// Judges `res` (after the call) against prior result `r0` and operands. `t_*` = tolerance the operands already
+/// carry (E2; zero in E1). Returns the tolerance granted (units) and the first violation, if any.
+#[allow(clippy::too_many_arguments)]
+pub fn judge(
+    sk: &[Vec<i64>],
+    op: Op,
+    p: i64,
+    res: &GLWE<Vec<u8>>,
+    r0: &GLWE<Vec<u8>>,
+    a: &GLWE<Vec<u8>>,
+    b: &GLWE<Vec<u8>>,
+    columns: bool,
+) -> (u128, Option<Verdict>) {
+    let n = res.n().0 as usize;
+    let rb = res.base2k().0 as usize;
+    let r_bits = res.size() * rb;
+    let a_bits = if op.uses_a() { a.size() * a.base2k().0 as usize } else { 0 };
+    let b_bits = if op.uses_b() { b.size() * b.base2k().0 as usize } else { 0 };
+    let k = p.unsigned_abs() as usize;
+    let l = r_bits.max(a_bits).max(b_bits) + if op == Op::Rsh { k } else { 0 } + 2;
+    let t = tolerance_units(op, p, r_bits, a_bits, b_bits, 0, 0, 0);
+    let ncols = res.data().cols();
+    let unit: IBig = IBig::from(1) << (l - r_bits);
+    let zero_glwe;
+    let (aa, bb): (&GLWE<Vec<u8>>, &GLWE<Vec<u8>>) = {
+        zero_glwe = glwe_alloc(n, rb, 1, 0);
+        (if op.uses_a() { a } else { &zero_glwe }, if op.uses_b() { b } else { &zero_glwe })
+    };
+    if columns {
+        let rc = cols_scaled(r0, ncols, l);
+        let ac = cols_scaled(aa, ncols, l);
+        let bc = cols_scaled(bb, ncols, l);
+        for i in 0..ncols {
+            let want = apply(op, p, &rc[i], &ac[i], &bc[i]);
+            let got = col_vals(res.data(), i, rb);
+            let (worst, at) = max_torus_err(&got, r_bits, &want, l);
+            let tol: IBig = IBig::from(t) * &unit;
+            if worst > tol {
+                return (
+                    t,
+                    Some(Verdict {
+                        kind: "wrong_value",
+                        level: "column",
+                        col: i,
+                        index: at,
+                        err_units: approx_units(&worst, l - r_bits),
+                        tol_units: t as f64,
+                        why: format!(
+                            "column {i} of the result differs from the operation applied to column {i} of the operands by {} units of the last result limb (granted: {t})",
+                            approx_units(&worst, l - r_bits)
+                        ),
+                    }),
+                );
+            }
+        }
+        // limb-exact model for limb-wise operations when nothing is truncated
+        if op.limbwise() && t == 0 {
+            for i in 0..ncols {
+                for j in 0..res.size() {
+                    let want = limb_model(op, p, n, j, i, r0, aa, bb);
+                    let got = res.data().at(i, j);
+                    if got != want.as_slice() {
+                        let at = got.iter().zip(&want).position(|(x, y)| x != y).unwrap();
+                        return (
+                            t,
+                            Some(Verdict {
+                                kind: "wrong_limbs",
+                                level: "limb",
+                                col: i,
+                                index: at,
+                                err_units: f64::NAN,
+                                tol_units: 0.0,
+                                why: format!("limb {j} of column {i}: got {} want {}", got[at], want[at]),
+                            }),
+                        );
+                    }
+                }
+            }
+        }
+    }
+    // phase level
+    let s_norm: u64 = 1 + (0..ncols - 1).map(|i| l1(&sk[i])).sum::<u64>();
+    let pr = phase_scaled(r0, sk, l);
+    let pa = phase_scaled(aa, sk, l);
+    let pb = phase_scaled(bb, sk, l);
+    let want = apply(op, p, &pr, &pa, &pb);
+    let got = glwe_phase(res.data(), rb, &sk[..ncols - 1]);
+    let (worst, at) = max_torus_err(&got, r_bits, &want, l);
+    let tol: IBig = IBig::from(t) * IBig::from(s_norm) * &unit;
+    if worst > tol {
+        return (
+            t,
+            Some(Verdict {
+                kind: "wrong_value",
+                level: "phase",
+                col: 0,
+                index: at,
+                err_units: approx_units(&worst, l - r_bits),
+                tol_units: (t as f64) * s_norm as f64,
+                why: format!(
+                    "phase(result) differs from op(phase(a), phase(b)) by {} units of the last result limb (granted: {t} x {s_norm})",
+                    approx_units(&worst, l - r_bits)
+                ),
+            }),
+        );
+    }
+    (t, None)
+}
+
+// ---------------------------------------------------------------------------------------------
+// E1: single operations
+// ---------------------------------------------------------------------------------------------
+
+#[derive(Clone, Debug, Serialize, Deserialize)]
+pub struct Case {
+    pub op: Op,
+    pub backend: String,
+    pub n: usize,
+    /// radix of the operands (and of the result unless the operation is Normalize)
+    pub b: usize,
+    pub b_out: usize,
+    pub rs: usize,
+    pub a_s: usize,
+    pub bs: usize,
+    pub rr: usize,
+    pub ra: usize,
+    pub rb: usize,
+}
+
+impl Case {
+    fn params(&self) -> Vec<i64> {
+        let n = self.n as i64;
+        if self.op.is_rotation() {
+            (-4 * n..=4 * n).collect()
+        } else if self.op.is_shift() {
+            let top = if self.op.uses_a() { self.rs.max(self.a_s) } else { self.rs };
+            (0..=((top + 2) * self.b) as i64).collect()
+        } else {
+            vec![0]
+        }
+    }
+    fn classes(&self) -> &'static [usize] {
+        if self.op.normalises() { &[0, 2, 3] } else { &[0, 1] }
+    }
+}
+
+fn digits_in_range(g: &GLWE<Vec<u8>>) -> Option<(usize, usize, i64)> {
+    let b = g.base2k().0 as usize;
+    let h = 1i64 << (b - 1);
+    for i in 0..g.data().cols() {
+        for j in 0..g.size() {
+            if let Some(d) = g.data().at(i, j).iter().find(|d| **d < -h || **d >= h) {
+                return Some((i, j, *d));
+            }
+        }
+    }
+    None
+}
+
+pub fn exec<B: Bk>(c: &Case, only: Option<(i64, usize, usize)>, seed: u64, rec: &mut Rec)
+where
+    Module<B>: HalAll<B> + CoreAll<B>,
+    Scratch<B>: ScratchTakeCore<B>,
+{
+    let m = B::module(c.n);
+    let sk = eval_secret(c.n);
+    let key = fnv(format!("{:?}", c).as_bytes());
+    rec.distinct(key);
+    rec.sample(|| serde_json::to_value(c).unwrap());
+    let mut reported: Vec<&'static str> = vec![];
+    for p in c.params() {
+        for g in 0..2usize {
+            for &v in c.classes() {
+                if let Some(o) = only {
+                    if o != (p, g, v) {
+                        continue;
+                    }
+                }
+                let mut rng = Rng::new(seed, key ^ ((p as u64) << 8) ^ ((g as u64) << 4) ^ v as u64);
+                let mut a = glwe_alloc(c.n, c.b, c.a_s, c.ra);
+                let mut b = glwe_alloc(c.n, c.b, c.bs, c.rb);
+                fill_class(a.data_mut(), c.b, v, &mut rng);
+                fill_class(b.data_mut(), c.b, v, &mut rng);
+                let mut r0 = glwe_alloc(c.n, c.b_out, c.rs, c.rr);
+                if c.op.reads_res() {
+                    fill_class(r0.data_mut(), c.b_out, v, &mut rng);
+                } else {
+                    garbage(bytemuck_mut(r0.data_mut().raw_mut()), g);
+                }
+                let mut res = glwe_clone(&r0);
+                let out = guarded(|| call::<B>(&m, c.op, p, &mut res, &a, &b, g));
+                rec.evals(1);
+                let inner = json!({"p": p, "g": g, "v": v});
+                let k = p.unsigned_abs() as i64;
+                let r_bits = (c.rs * c.b_out) as i64;
+                let class_fields = |d: &mut Value| {
+                    let o = d.as_object_mut().unwrap();
+                    o.insert("op".into(), json!(c.op.name()));
+                    o.insert("backend".into(), json!(B::NAME));
+                    o.insert("case".into(), serde_json::to_value(c).unwrap());
+                    o.insert("inner".into(), inner.clone());
+                    o.insert("res_rank_gt_a_rank".into(), json!(c.op.uses_a() && c.rr > c.ra));
+                    o.insert("a_rank_zero".into(), json!(c.op.uses_a() && c.ra == 0));
+                    o.insert("cross_radix".into(), json!(c.b != c.b_out));
+                    o.insert("input_normalised".into(), json!(v != 3));
+                    o.insert("offset_negative".into(), json!(c.op == Op::Rsh && k > 0));
+                    o.insert(
+                        "shift_beyond_output_bits".into(),
+                        json!(if c.op == Op::Rsh { (k - r_bits).max(0) } else { 0 }),
+                    );
+                };
+                if let Err(msg) = out {
+                    if !reported.contains(&"panic") {
+                        reported.push("panic");
+                        let mut d = json!({"kind": "panic", "panic": msg});
+                        class_fields(&mut d);
+                        rec.fail(d);
+                    } else {
+                        rec.add("failures_not_itemised", 1);
+                    }
+                    continue;
+                }
+                let (_t, verdict) = judge(&sk, c.op, p, &res, &r0, &a, &b, true);
+                let mut bad: Option<Value> = verdict.map(|v| {
+                    json!({"kind": v.kind, "level": v.level, "col": v.col, "index": v.index, "err_units": v.err_units,
+                        "tol_units": v.tol_units, "why": v.why})
+                });
+                if bad.is_none() && matches!(c.op, Op::Normalize | Op::NormalizeAssign) && c.b != c.b_out && digits_in_range(&res).is_some() {
+                    // R4 demands the digit range for equal radices only; cross-radix outputs with digits outside
+                    // [-2^(b-1), 2^(b-1)) are counted as an observation
+                    rec.add("cross_radix_results_with_out_of_range_digits", 1);
+                }
+                if bad.is_none() && matches!(c.op, Op::Normalize | Op::NormalizeAssign) && c.b == c.b_out {
+                    if let Some((i, j, d)) = digits_in_range(&res) {
+                        bad = Some(json!({"kind": "not_normalised", "level": "limb", "col": i, "limb": j,
+                            "why": format!("digit {d} outside [-2^(b-1), 2^(b-1)) after normalisation")}));
+                    }
+                }
+                match bad {
+                    Some(mut d) => {
+                        let kind: &'static str = match d["kind"].as_str().unwrap() {
+                            "wrong_value" => "wrong_value",
+                            "wrong_limbs" => "wrong_limbs",
+                            _ => "not_normalised",
+                        };
+                        if !reported.contains(&kind) {
+                            reported.push(kind);
+                            class_fields(&mut d);
+                            rec.fail(d);
+                        } else {
+                            rec.add("failures_not_itemised", 1);
+                        }
+                    }
+                    None => {
+                        if g == 0 && v == 0 {
+                            rec.outcome(pvc_engine::hash_i64s(res.data().at(0, 0)));
+                        }
+                    }
+                }
+            }
+        }
+    }
+}
+
+fn bytemuck_mut(x: &mut [i64]) -> &mut [u8] {
+    // SAFETY: plain reinterpretation of an i64 slice as bytes (same allocation, 8x the length)
+    unsafe { std::slice::from_raw_parts_mut(x.as_mut_ptr() as *mut u8, x.len() * 8) }
+}
+
+fn rank_triples(op: Op) -> Vec<(usize, usize, usize)> {
+    let mut out = vec![];
+    for rr in 0..=3usize {
+        for ra in 0..=(if op.uses_a() { 3 } else { 0 }) {
+            for rb in 0..=(if op.uses_b() { 3 } else { 0 }) {
+                if op.admits(rr, ra, rb) {
+                    out.push((rr, ra, rb));
+                }
+            }
+        }
+    }
+    out
+}
+
+fn cases<B: Bk>(tier: Tier) -> Vec<Case> {
+    let mut out = vec![];
+    let smax = tier.pick(3usize, 4usize);
+    let radices = [1usize, 2, 3, 17];
+    for &op in ALL_OPS.iter() {
+        for &n in &[8usize, 16] {
+            let radix_pairs: Vec<(usize, usize)> = if op == Op::Normalize {
+                let top = tier.pick(4usize, 5usize);
+                let mut v: Vec<(usize, usize)> = vec![];
+                for bi in 1..=top {
+                    for bo in 1..=top {
+                        v.push((bi, bo));
+                    }
+                }
+                v.extend([(17, 17), (17, 12), (12, 17)]);
+                v
+            } else {
+                radices.iter().map(|b| (*b, *b)).collect()
+            };
+            for &(b, b_out) in &radix_pairs {
+                for rs in 1..=smax {
+                    for a_s in 1..=(if op.uses_a() { smax } else { 1 }) {
+                        for bs in 1..=(if op.uses_b() { smax } else { 1 }) {
+                            for (rr, ra, rb) in rank_triples(op) {
+                                // rotations enumerate O(N) parameters inside: the quick tier keeps N=16 to ranks <= 2
+                                if !tier.is_thorough() && op.is_rotation() && n == 16 && rr == 3 {
+                                    continue;
+                                }
+                                if !tier.is_thorough() && op.is_shift() && n == 16 && b == 17 && rr == 3 {
+                                    continue;
+                                }
+                                out.push(Case {
+                                    op,
+                                    backend: B::NAME.into(),
+                                    n,
+                                    b,
+                                    b_out,
+                                    rs,
+                                    a_s,
+                                    bs,
+                                    rr,
+                                    ra,
+                                    rb,
+                                });
+                            }
+                        }
+                    }
+                }
+            }
+        }
+    }
+    out
+}
+
+fn fam_ops<B: Bk>(run: &mut Run)
+where
+    Module<B>: HalAll<B> + CoreAll<B>,
+    Scratch<B>: ScratchTakeCore<B>,
+{
+    let seed = run.seed;
+    let cs = cases::<B>(run.tier);
+    run.family(
+        &format!("glwe_ops/{}", B::NAME),
+        "outer = (operation, N, radix (pair), res/a/b sizes, res/a/b ranks admitted by the API); inner = every rotation k in [-4N,4N] / every shift 0..(max size+2)*base2k x 2 garbage fills (or 2 streams for in-place forms) x value classes (normalised random, extreme digits; carry ripple and un-normalised digits for normalising operations); oracle = exact rational column values and exact phases modulo 1, one unit of the last result limb per truncated operand, exact otherwise; limb-exact ring model for limb-wise operations without truncation",
+        cs,
+        |c, rec| exec::<B>(c, None, seed, rec),
+    );
+}
+
+// ---------------------------------------------------------------------------------------------
+// E1: GGSW rotate
+// ---------------------------------------------------------------------------------------------
+
+#[derive(Clone, Debug, Serialize, Deserialize)]
+pub struct GgswCase {
+    pub assign: bool,
+    pub backend: String,
+    pub n: usize,
+    pub b: usize,
+    pub rank: usize,
+    pub rs: usize,
+    pub a_s: usize,
+    pub dsize: usize,
+    pub dnum_r: usize,
+    pub dnum_a: usize,
+}
+
+fn ggsw_alloc(n: usize, b: usize, size: usize, rank: usize, dnum: usize, dsize: usize) -> GGSW<Vec<u8>> {
+    GGSW::alloc(
+        Degree(n as u32),
+        Base2K(b as u32),
+        TorusPrecision((size * b) as u32),
+        Rank(rank as u32),
+        Dnum(dnum as u32),
+        Dsize(dsize as u32),
+    )
+}
+
+pub fn exec_ggsw<B: Bk>(c: &GgswCase, only: Option<(i64, usize)>, seed: u64, rec: &mut Rec)
+where
+    Module<B>: HalAll<B> + CoreAll<B>,
+    Scratch<B>: ScratchTakeCore<B>,
+{
+    let m = B::module(c.n);
+    let sk = eval_secret(c.n);
+    let key = fnv(format!("{:?}", c).as_bytes());
+    rec.distinct(key);
+    rec.sample(|| serde_json::to_value(c).unwrap());
+    let cols = c.rank + 1;
+    let mut reported = false;
+    let n64 = c.n as i64;
+    for p in -4 * n64..=4 * n64 {
+        for g in 0..2usize {
+            if let Some(o) = only {
+                if o != (p, g) {
+                    continue;
+                }
+            }
+            let mut rng = Rng::new(seed, key ^ ((p as u64) << 8) ^ g as u64);
+            let mut a = ggsw_alloc(c.n, c.b, c.a_s, c.rank, c.dnum_a, c.dsize);
+            for row in 0..c.dnum_a {
+                for col in 0..cols {
+                    fill_class(a.at_mut(row, col).data_mut(), c.b, g, &mut rng);
+                }
+            }
+            let mut res = ggsw_alloc(c.n, c.b, c.rs, c.rank, c.dnum_r, c.dsize);
+            for row in 0..c.dnum_r {
+                for col in 0..cols {
+                    if c.assign {
+                        fill_class(res.at_mut(row, col).data_mut(), c.b, g, &mut rng);
+                    } else {
+                        let mut cell = res.at_mut(row, col);
+                        let v = cell.data_mut();
+                        for i in 0..cols {
+                            for j in 0..c.rs {
+                                garbage(bytemuck_mut(v.at_mut(i, j)), g);
+                            }
+                        }
+                    }
+                }
+            }
+            // prior cells as owned GLWE (inputs of the in-place form)
+            let cell_glwe = |x: &GGSW<Vec<u8>>, size: usize, row: usize, col: usize| -> GLWE<Vec<u8>> {
+                let mut out = glwe_alloc(c.n, c.b, size, c.rank);
+                let src = x.at(row, col);
+                for i in 0..cols {
+                    for j in 0..size {
+                        out.data_mut().at_mut(i, j).copy_from_slice(src.data().at(i, j));
+                    }
+                }
+                out
+            };
+            let prior: Vec<GLWE<Vec<u8>>> = (0..c.dnum_r * cols).map(|x| cell_glwe(&res, c.rs, x / cols, x % cols)).collect();
+            let out = guarded(|| {
+                let bytes = m.ggsw_rotate_tmp_bytes() + 256;
+                with_scratch::<B, _>(bytes, g, |s| {
+                    if c.assign {
+                        m.ggsw_rotate_assign(p, &mut res, s)
+                    } else {
+                        m.ggsw_rotate(p, &mut res, &a)
+                    }
+                })
+            });
+            rec.evals(1);
+            let inner = json!({"p": p, "g": g});
+            let opname = if c.assign { "ggsw_rotate_assign" } else { "ggsw_rotate" };
+            if let Err(msg) = out {
+                if !reported {
+                    reported = true;
+                    rec.fail(json!({"op": opname, "backend": B::NAME, "kind": "panic", "case": c, "inner": inner, "panic": msg}));
+                }
+                continue;
+            }
+            let op = if c.assign { Op::RotateAssign } else { Op::Rotate };
+            let dummy = glwe_alloc(c.n, c.b, 1, 0);
+            'cells: for row in 0..c.dnum_r {
+                for col in 0..cols {
+                    let got = cell_glwe(&res, c.rs, row, col);
+                    let r0 = &prior[row * cols + col];
+                    let acell = cell_glwe(&a, c.a_s, row, col);
+                    let (_t, v) = judge(&sk, op, p, &got, r0, &acell, &dummy, true);
+                    if let Some(v) = v {
+                        if !reported {
+                            reported = true;
+                            rec.fail(json!({"op": opname, "backend": B::NAME, "kind": v.kind, "level": v.level, "case": c, "inner": inner,
+                                "row": row, "cell_col": col, "col": v.col, "index": v.index, "err_units": v.err_units, "why": v.why}));
+                        }
+                        break 'cells;
+                    }
+                }
+            }
+        }
+    }
+}
+
+fn ggsw_cases<B: Bk>(tier: Tier) -> Vec<GgswCase> {
+    let mut out = vec![];
+    let smax = tier.pick(3usize, 4usize);
+    for assign in [false, true] {
+        for &n in &[8usize, 16] {
+            for &b in tier.pick(&[2usize, 17][..], &[1usize, 2, 3, 17][..]) {
+                for rank in 0..=tier.pick(1usize, 2usize) {
+                    for rs in 2..=smax {
+                        for a_s in 2..=(if assign { 2 } else { smax }) {
+                            // GGSW::alloc demands size > dsize and dnum*dsize <= size
+                            for dsize in 1..rs.min(if assign { rs } else { a_s }) {
+                                for dnum_r in 1..=rs / dsize {
+                                    for dnum_a in dnum_r..=(if assign { dnum_r } else { a_s / dsize }) {
+                                        if !tier.is_thorough() && n == 16 && (rank > 0 && rs + a_s > 5) {
+                                            continue;
+                                        }
+                                        out.push(GgswCase {
+                                            assign,
+                                            backend: B::NAME.into(),
+                                            n,
+                                            b,
+                                            rank,
+                                            rs,
+                                            a_s: if assign { rs } else { a_s },
+                                            dsize,
+                                            dnum_r,
+                                            dnum_a,
+                                        });
+                                    }
+                                }
+                            }
+                        }
+                    }
+                }
+            }
+        }
+    }
+    out
+}
+
+fn fam_ggsw<B: Bk>(run: &mut Run)
+where
+    Module<B>: HalAll<B> + CoreAll<B>,
+    Scratch<B>: ScratchTakeCore<B>,
+{
+    let seed = run.seed;
+    let cs = ggsw_cases::<B>(run.tier);
+    run.family(
+        &format!("ggsw_rotate/{}", B::NAME),
+        "outer = (in-place?, N, radix, rank, res/a sizes, dsize, res/a row counts with res.dnum <= a.dnum); inner = every k in [-4N,4N] x 2 fills; oracle = every cell (row, column) of the result judged as a GLWE: columns, phase and limbs equal X^k times the same cell of the operand",
+        cs,
+        |c, rec| exec_ggsw::<B>(c, None, seed, rec),
+    );
+}
+
+// ---------------------------------------------------------------------------------------------
+// E2: explicit-state search over operation programs
+// ---------------------------------------------------------------------------------------------
+
+/// tolerance classes of the abstract key: 0 (phase known exactly), 1 .. CAP-1 units, CAP = "CAP or more"
+const CAP: u8 = 3;
+
+#[derive(Clone, Copy, Debug, PartialEq, Eq, Hash, Serialize, Deserialize)]
+pub struct Act {
+    pub op: Op,
+    pub r: usize,
+    pub a: usize,
+    pub b: usize,
+    pub p: i64,
+}
+
+pub struct Reg {
+    pub ct: GLWE<Vec<u8>>,
+    /// reference phase: exact image of the initial phases under the program so far, scaled by 2^L, not reduced mod 1
+    pub model: Poly,
+    /// tolerance granted so far, units of this register's last limb (per column and coefficient)
+    pub t: u128,
+    /// abstract tolerance class (part of the state key; a function of the key and the action only)
+    pub kc: u8,
+}
+
+impl Clone for Reg {
+    fn clone(&self) -> Self {
+        Reg {
+            ct: glwe_clone(&self.ct),
+            model: self.model.clone(),
+            t: self.t,
+            kc: self.kc,
+        }
+    }
+}
+
+#[derive(Clone)]
+pub struct PState {
+    pub regs: Vec<Reg>,
+    pub depth: u8,
+    pub trace: Vec<Act>,
+    pub init: usize,
+}
+
+impl PState {
+    fn key(&self) -> Vec<(u8, u8, u8)> {
+        self.regs.iter().map(|r| ((r.ct.data().cols() - 1) as u8, r.ct.size() as u8, r.kc)).collect()
+    }
+}
+
+impl Hash for PState {
+    fn hash<H: Hasher>(&self, h: &mut H) {
+        self.key().hash(h);
+        self.depth.hash(h);
+    }
+}
+
+impl PartialEq for PState {
+    fn eq(&self, o: &Self) -> bool {
+        self.depth == o.depth && self.key() == o.key()
+    }
+}
+impl Eq for PState {}
+
+impl std::fmt::Debug for PState {
+    fn fmt(&self, f: &mut std::fmt::Formatter<'_>) -> std::fmt::Result {
+        write!(f, "PState(depth {}, key {:?}, trace {:?})", self.depth, self.key(), self.trace)
+    }
+}
+
+pub struct Programs<B: Bk> {
+    pub module: Module<B>,
+    pub n: usize,
+    pub b: usize,
+    pub l: usize,
+    pub max_depth: u8,
+    pub inits: Vec<Vec<(usize, usize)>>,
+    pub sk: Vec<Vec<i64>>,
+    pub seed: u64,
+    pub transitions: AtomicU64,
+    pub loose: AtomicU64,
+    pub exact: AtomicU64,
+    pub failures: Mutex<Vec<Value>>,
+}
+
+// SAFETY: the module handle is only read (the library's operations take &self and keep no interior state)
+unsafe impl<B: Bk> Sync for Programs<B> {}
+unsafe impl<B: Bk> Send for Programs<B> {}
+
+impl<B: Bk> Programs<B>
+where
+    Module<B>: HalAll<B> + CoreAll<B>,
+    Scratch<B>: ScratchTakeCore<B>,
+{
+    pub fn new(n: usize, b: usize, max_depth: u8, inits: Vec<Vec<(usize, usize)>>, seed: u64) -> Self {
+        Programs {
+            module: B::module(n),
+            n,
+            b,
+            // register sizes <= 3 limbs; every rsh adds at most b+1 bits of exact precision
+            l: 3 * b + (max_depth as usize + 1) * (b + 1) + 8,
+            max_depth,
+            inits,
+            sk: eval_secret(n),
+            seed,
+            transitions: AtomicU64::new(0),
+            loose: AtomicU64::new(0),
+            exact: AtomicU64::new(0),
+            failures: Mutex::new(vec![]),
+        }
+    }
+
+    pub fn init_state(&self, idx: usize) -> PState {
+        let shape = &self.inits[idx];
+        let mut rng = Rng::new(self.seed, 0xE2 ^ ((idx as u64) << 8) ^ ((self.n as u64) << 32) ^ ((self.b as u64) << 40));
+        let regs = shape
+            .iter()
+            .enumerate()
+            .map(|(i, &(rank, size))| {
+                let mut ct = glwe_alloc(self.n, self.b, size, rank);
+                fill_class(ct.data_mut(), self.b, if i == 1 { 1 } else { 0 }, &mut rng);
+                let model = phase_scaled(&ct, &self.sk, self.l);
+                Reg { ct, model, t: 0, kc: 0 }
+            })
+            .collect();
+        PState {
+            regs,
+            depth: 0,
+            trace: vec![],
+            init: idx,
+        }
+    }
+
+    pub fn params(&self, op: Op) -> Vec<i64> {
+        if op.is_rotation() {
+            vec![1, -1, self.n as i64, 2 * self.n as i64 + 1]
+        } else if op.is_shift() {
+            vec![1, self.b as i64, self.b as i64 + 1]
+        } else {
+            vec![0]
+        }
+    }
+
+    /// one transition: the real call on real objects, judged against the reference phases carried in the state
+    pub fn step(&self, s: &PState, act: Act, record: bool) -> Result<PState, Value> {
+        self.transitions.fetch_add(1, Ordering::Relaxed);
+        let mut next = s.clone();
+        next.depth += 1;
+        next.trace.push(act);
+        let op = act.op;
+        let (ra, rb) = (&s.regs[act.a], &s.regs[act.b]);
+        let r_bits = s.regs[act.r].ct.size() * self.b;
+        let a_bits = if op.uses_a() { ra.ct.size() * self.b } else { 0 };
+        let b_bits = if op.uses_b() { rb.ct.size() * self.b } else { 0 };
+        let (t_r, t_a, t_b) = (
+            if op.reads_res() { s.regs[act.r].t } else { 0 },
+            if op.uses_a() { ra.t } else { 0 },
+            if op.uses_b() { rb.t } else { 0 },
+        );
+        let t_new = tolerance_units(op, act.p, r_bits, a_bits, b_bits, t_r, t_a, t_b);
+        // abstract class: function of the key classes and the action only (sticky saturation)
+        let kc = {
+            let cls = |reg: &Reg, used: bool| -> Option<u128> {
+                if !used {
+                    Some(0)
+                } else if reg.kc >= CAP {
+                    None
+                } else {
+                    Some(reg.kc as u128)
+                }
+            };
+            match (cls(&s.regs[act.r], op.reads_res()), cls(ra, op.uses_a()), cls(rb, op.uses_b())) {
+                (Some(x), Some(y), Some(z)) => tolerance_units(op, act.p, r_bits, a_bits, b_bits, x, y, z).min(CAP as u128) as u8,
+                _ => CAP,
+            }
+        };
+        let zero = pzero(self.n);
+        // Division by 2^k is not a map of the torus: glwe_rsh divides the representative the digits hold. The
+        // reference phase is congruent to the actual one modulo 1 only, so for Rsh it is first moved to the
+        // representative of the actual register (J = round(actual - reference), an integer polynomial fixed by
+        // the payload as long as the tolerance is below 1/2); the quotient is then demanded of the library.
+        let rsh_model;
+        let res_model: &Poly = if op == Op::Rsh {
+            let actual = phase_scaled(&s.regs[act.r].ct, &self.sk, self.l);
+            let half: IBig = IBig::from(1) << (self.l - 1);
+            rsh_model = s.regs[act.r]
+                .model
+                .iter()
+                .zip(&actual)
+                .map(|(m, a)| {
+                    let d: IBig = a - m;
+                    // nearest multiple of 2^l
+                    let j: IBig = (&d + &half) >> self.l;
+                    m + (j << self.l)
+                })
+                .collect::<Poly>();
+            &rsh_model
+        } else {
+            &s.regs[act.r].model
+        };
+        let want = apply(
+            op,
+            act.p,
+            if op.reads_res() { res_model } else { &zero },
+            if op.uses_a() { &ra.model } else { &zero },
+            if op.uses_b() { &rb.model } else { &zero },
+        );
+        {
+            let a_ct = glwe_clone(&ra.ct);
+            let b_ct = glwe_clone(&rb.ct);
+            let res = &mut next.regs[act.r].ct;
+            if !op.reads_res() {
+                garbage(bytemuck_mut(res.data_mut().raw_mut()), (s.depth & 1) as usize);
+            }
+            let out = guarded(|| call::<B>(&self.module, op, act.p, res, &a_ct, &b_ct, (s.depth & 1) as usize));
+            if let Err(msg) = out {
+                let d = self.describe(s, &next.trace, act, "panic", json!({"panic": msg}));
+                if record {
+                    self.push_failure(d.clone());
+                }
+                return Err(d);
+            }
+        }
+        let rank = next.regs[act.r].ct.data().cols() - 1;
+        if std::env::var("VERIF_DEBUG").is_ok() {
+            eprintln!("step {:?}", act);
+            for (i, r) in s.regs.iter().enumerate() {
+                eprintln!("  before r{i}: t={} {}", r.t, r.ct);
+            }
+            eprintln!("  after  r{}: {}", act.r, next.regs[act.r].ct);
+        }
+        let got = glwe_phase(next.regs[act.r].ct.data(), self.b, &self.sk[..rank]);
+        let (worst, at) = max_torus_err(&got, r_bits, &want, self.l);
+        let s_norm: u64 = 1 + (0..rank).map(|i| l1(&self.sk[i])).sum::<u64>();
+        if t_new >= T_INF || (IBig::from(t_new) * IBig::from(s_norm) << (self.l - r_bits)) >= (IBig::from(1) << (self.l - 1)) {
+            // tolerance reaches half the torus: nothing can be decided on this transition
+            self.loose.fetch_add(1, Ordering::Relaxed);
+        } else {
+            if t_new == 0 {
+                self.exact.fetch_add(1, Ordering::Relaxed);
+            }
+            let tol: IBig = (IBig::from(t_new) * IBig::from(s_norm)) << (self.l - r_bits);
+            if worst > tol {
+                let d = self.describe(
+                    s,
+                    &next.trace,
+                    act,
+                    "wrong_value",
+                    json!({"index": at, "err_units": approx_units(&worst, self.l - r_bits), "tol_units": (t_new as f64) * s_norm as f64,
+                        "why": "phase of the destination register differs from the operation applied to the reference phases carried in the state"}),
+                );
+                if record {
+                    self.push_failure(d.clone());
+                }
+                return Err(d);
+            }
+        }
+        next.regs[act.r].model = want;
+        next.regs[act.r].t = t_new;
+        next.regs[act.r].kc = kc;
+        Ok(next)
+    }
+
+    fn describe(&self, s: &PState, trace: &[Act], act: Act, kind: &str, extra: Value) -> Value {
+        let ranks: Vec<usize> = s.regs.iter().map(|r| r.ct.data().cols() - 1).collect();
+        let mut d = json!({
+            "op": act.op.name(), "backend": B::NAME, "kind": kind,
+            "case": {"n": self.n, "b": self.b, "shape": self.inits[s.init], "trace": trace, "max_depth": self.max_depth},
+            "inner": {"step": trace.len() - 1},
+            "depth": trace.len(),
+            "res_rank_gt_a_rank": act.op.uses_a() && ranks[act.r] > ranks[act.a],
+            "a_rank_zero": act.op.uses_a() && ranks[act.a] == 0,
+            "cross_radix": false,
+            "offset_negative": act.op == Op::Rsh,
+            "shift_beyond_output_bits": if act.op == Op::Rsh { (act.p - (s.regs[act.r].ct.size() * self.b) as i64).max(0) } else { 0 },
+            "state_key": format!("{:?}", s.key()),
+        });
+        for (k, v) in extra.as_object().unwrap() {
+            d[k] = v.clone();
+        }
+        d
+    }
+
+    fn push_failure(&self, d: Value) {
+        let mut f = self.failures.lock().unwrap();
+        // one itemised failure per (operation, kind, depth); the rest is counted
+        let sig = |x: &Value| format!("{}|{}|{}", x["op"], x["kind"], x["depth"]);
+        if f.len() < 4096 && !f.iter().any(|x| sig(x) == sig(&d)) {
+            f.push(d);
+        }
+    }
+}
+
+impl<B: Bk> Model for Programs<B>
+where
+    Module<B>: HalAll<B> + CoreAll<B>,
+    Scratch<B>: ScratchTakeCore<B>,
+{
+    type State = PState;
+    type Action = Act;
+
+    fn init_states(&self) -> Vec<PState> {
+        (0..self.inits.len()).map(|i| self.init_state(i)).collect()
+    }
+
+    fn actions(&self, s: &PState, out: &mut Vec<Act>) {
+        if s.depth >= self.max_depth {
+            return;
+        }
+        let nr = s.regs.len();
+        let rank = |i: usize| s.regs[i].ct.data().cols() - 1;
+        for &op in ALL_OPS.iter() {
+            for p in self.params(op) {
+                for r in 0..nr {
+                    if !op.uses_a() {
+                        out.push(Act { op, r, a: r, b: r, p });
+                        continue;
+                    }
+                    for a in 0..nr {
+                        if a == r {
+                            continue; // &mut res and &a cannot alias
+                        }
+                        if !op.uses_b() {
+                            if op.admits(rank(r), rank(a), 0) {
+                                out.push(Act { op, r, a, b: a, p });
+                            }
+                            continue;
+                        }
+                        for b in 0..nr {
+                            if b == r {
+                                continue;
+                            }
+                            if op.admits(rank(r), rank(a), rank(b)) {
+                                out.push(Act { op, r, a, b, p });
+                            }
+                        }
+                    }
+                }
+            }
+        }
+    }
+
+    fn next_state(&self, s: &PState, act: Act) -> Option<PState> {
+        self.step(s, act, true).ok()
+    }
+
+    fn properties(&self) -> Vec<Property<Self>> {
+        // violations are recorded (with their trace) by `step`; the always-true property keeps the search exhaustive
+        vec![Property::always("exploration continues", |_, _| true)]
+    }
+}
+
+fn program_inits(tier: Tier) -> Vec<Vec<(usize, usize)>> {
+    let opts: [(usize, usize); 4] = [(0, 2), (0, 3), (1, 2), (1, 3)];
+    let mut out = vec![];
+    for x in 0..4 {
+        for y in 0..4 {
+            for z in 0..4 {
+                if !tier.is_thorough() && !(x <= y && y <= z && (x != y || y != z)) {
+                    continue; // quick: register files up to permutation, not all equal
+                }
+                out.push(vec![opts[x], opts[y], opts[z]]);
+            }
+        }
+    }
+    out
+}
+
+fn fam_programs<B: Bk>(run: &mut Run)
+where
+    Module<B>: HalAll<B> + CoreAll<B>,
+    Scratch<B>: ScratchTakeCore<B>,
+{
+    let seed = run.seed;
+    let tier = run.tier;
+    let depth: u8 = tier.pick(3, 4);
+    let grids: Vec<(usize, usize)> = tier.pick(vec![(8, 2)], vec![(8, 2), (8, 17), (16, 3)]);
+    let name = format!("programs/{}", B::NAME);
+    if !run.wants(&name) {
+        return;
+    }
+    let mut states = 0u64;
+    let mut transitions = 0u64;
+    run.single(
+        &name,
+        "stateright model: 3 registers of real GLWE objects (ranks {0,1}, sizes {2,3}), actions = all 19 operations on every admissible register choice with k in {1,-1,N,2N+1} / shifts in {1,b,b+1}; state key = (rank, size, tolerance class) per register + depth; every transition = one real call judged against the reference phase carried in the state; explored twice (BFS, DFS), counts compared",
+        |rec| {
+            for &(n, b) in &grids {
+                let mut counts = vec![];
+                for pass in 0..2 {
+                    let model = Programs::<B>::new(n, b, depth, program_inits(tier), seed);
+                    let builder = model.checker().threads(pvc_engine::threads());
+                    let (unique, fails, tr, loose, exact) = if pass == 0 {
+                        let ch = builder.spawn_bfs().join();
+                        let mdl = ch.model();
+                        (
+                            ch.unique_state_count() as u64,
+                            mdl.failures.lock().unwrap().clone(),
+                            mdl.transitions.load(Ordering::Relaxed),
+                            mdl.loose.load(Ordering::Relaxed),
+                            mdl.exact.load(Ordering::Relaxed),
+                        )
+                    } else {
+                        let ch = builder.spawn_dfs().join();
+                        let mdl = ch.model();
+                        (
+                            ch.unique_state_count() as u64,
+                            mdl.failures.lock().unwrap().clone(),
+                            mdl.transitions.load(Ordering::Relaxed),
+                            mdl.loose.load(Ordering::Relaxed),
+                            mdl.exact.load(Ordering::Relaxed),
+                        )
+                    };
+                    counts.push((unique, tr));
+                    if pass == 0 {
+                        states += unique;
+                        transitions += tr;
+                        rec.evals(tr);
+                        rec.add("states", unique);
+                        rec.add("transitions_with_vacuous_tolerance", loose);
+                        rec.add("transitions_demanding_exact_phase", exact);
+                        for s in 0..unique {
+                            rec.distinct(fnv(format!("{n}|{b}|{s}").as_bytes()));
+                        }
+                        let mut fails = fails;
+                        fails.sort_by_key(|d| d["depth"].as_u64().unwrap_or(99));
+                        for d in fails {
+                            rec.fail(d);
+                        }
+                    }
+                }
+                if counts[0] != counts[1] {
+                    rec.fail(json!({"op": "programs", "backend": B::NAME, "kind": "nondeterministic_exploration",
+                        "case": {"n": n, "b": b}, "inner": {}, "bfs": [counts[0].0, counts[0].1], "dfs": [counts[1].0, counts[1].1]}));
+                }
+                rec.sample(|| json!({"n": n, "b": b, "depth": depth, "unique_states": counts[0].0, "transitions": counts[0].1}));
+            }
+        },
+    );
+    run.states += states;
+    run.transitions += transitions;
+    run.traces_validated += transitions;
+}
+
+pub fn replay_program<B: Bk>(d: &Value, seed: u64, rec: &mut Rec)
+where
+    Module<B>: HalAll<B> + CoreAll<B>,
+    Scratch<B>: ScratchTakeCore<B>,
+{
+    let c = &d["case"];
+    let n = c["n"].as_u64().unwrap() as usize;
+    let b = c["b"].as_u64().unwrap() as usize;
+    let shape: Vec<(usize, usize)> = serde_json::from_value(c["shape"].clone()).unwrap();
+    let trace: Vec<Act> = serde_json::from_value(c["trace"].clone()).unwrap();
+    let depth = c["max_depth"].as_u64().unwrap_or(4) as u8;
+    let model = Programs::<B>::new(n, b, depth.max(trace.len() as u8), vec![shape], seed);
+    let mut s = model.init_state(0);
+    for act in trace {
+        rec.evals(1);
+        match model.step(&s, act, false) {
+            Ok(nx) => s = nx,
+            Err(mut dd) => {
+                dd["note"] = json!("re-executed from the initial register file; under the parallel search the representative payload of a merged state may differ from the one of the original run");
+                rec.fail(dd);
+                return;
+            }
+        }
+    }
+}
+
+pub fn run(run: &mut Run) {
+    run.assume("operands and result share the ring degree and (except glwe_normalize) the limb radix: glwe_add/sub/shift assert it, glwe_negate/copy/rotate/mul_xp_minus_one do not look at the radix at all, so a mixed-radix call has no defined phase");
+    run.assume("rank combinations are exactly those the API's assertions admit (e.g. add_into: equal ranks or one rank-0 operand; add_assign / lsh*: res.rank >= a.rank; sub_assign, sub_negate_assign, copy, rotate: equal or rank-0 operand); the phase of an operand of lower rank is taken under the first columns of the same clear secret");
+    run.assume("operands of limb-wise operations hold normalised digits (then a truncated tail is below one unit of the last kept limb); operations that normalise (shifts, normalize) also get un-normalised digits in [-2^(b+1), 2^(b+1)] and carry-ripple patterns");
+    run.assume("glwe_rsh is granted one unit of the last limb for every shift > 0 (it truncates in place); glwe_lsh* is exact whenever res_size*b >= a_size*b - k");
+    for_backends!(fam_ops(run));
+    for_backends!(fam_ggsw(run));
+    for_backends!(fam_programs(run));
+    run.note(
+        "e2_merge_argument",
+        json!("none of the operations branches on payload; the state key (rank, size, tolerance class per register, depth) determines the enabled actions and every branch taken; payload-dependent behaviour is judged on every transition with the exact tolerance carried in the state"),
+    );
+}
+
+pub fn replay(run: &mut Run, d: &Value) {
+    let backend = d["backend"].as_str().unwrap_or("").to_string();
+    let fam = d["family"].as_str().unwrap_or("").to_string();
+    let seed = d["seed"].as_u64().unwrap_or(0);
+    macro_rules! go {
+        ($B:ty) => {{
+            if fam.starts_with("glwe_ops") {
+                let c: Case = serde_json::from_value(d["case"].clone()).unwrap();
+                let i = &d["inner"];
+                let only = match (i["p"].as_i64(), i["g"].as_u64(), i["v"].as_u64()) {
+                    (Some(p), Some(g), Some(v)) => Some((p, g as usize, v as usize)),
+                    _ => None,
+                };
+                run.single(&fam, "replay", |rec| exec::<$B>(&c, only, seed, rec));
+            } else if fam.starts_with("ggsw_rotate") {
+                let c: GgswCase = serde_json::from_value(d["case"].clone()).unwrap();
+                let i = &d["inner"];
+                let only = match (i["p"].as_i64(), i["g"].as_u64()) {
+                    (Some(p), Some(g)) => Some((p, g as usize)),
+                    _ => None,
+                };
+                run.single(&fam, "replay", |rec| exec_ggsw::<$B>(&c, only, seed, rec));
+            } else {
+                run.single(&fam, "replay", |rec| replay_program::<$B>(d, seed, rec));
+            }
+        }};
+    }
+    match backend.as_str() {
+        "fft64-ref" => go!(pvc_common::FFT64Ref),
+        "ntt120-ref" => go!(pvc_common::NTT120Ref),
+        "fft64-avx" => go!(pvc_common::FFT64Avx),
+        "ntt120-avx" => go!(pvc_common::NTT120Avx),
+        o => panic!("unknown backend {o}"),
+    }
 }
